@@ -1712,6 +1712,13 @@ def merge_nested_comprehensions(source: str) -> str:
                     new_generators.append(comprehension)
                     continue
 
+                # The inner comprehension may use the name of the outer target for something else
+                if comprehension.target.id != target_name_inner and any(
+                    core.walk(comprehension.iter, ast.Name(id=comprehension.target.id))
+                ):
+                    new_generators.append(comprehension)
+                    continue
+
                 tf = RenameTransformer(target_name_inner, comprehension.target.id)
 
                 # The transformer modifies nodes in place, and the parsed tree is cached
